@@ -59,7 +59,7 @@ structure CfgFrame (e : SEE) (cfg : Spec.Cfg) : Prop where
   rm : e.requireMinimal = hasFlag e.flags Flag.MINIMALDATA
   pretendKeys : ∀ key, e.pretendKeys.contains key = Spec.keyListed cfg key
   pretendPair : ∀ sig key, e.pretendKeys.contains key = true →
-    (pretendLookup e.pretendMap sig == some key) = Spec.pairListed cfg sig key
+    pretendHas e.pretendMap sig key = Spec.pairListed cfg sig key
 
 /-- a session whose checker is the specification's oracle is in the configuration relation of C01 -/
 theorem cfgRel_oracle (e : SEE) (cfg : Spec.Cfg) (hf : CfgFrame e cfg) : CfgRel (oracleCtx cfg.oracle) e cfg where
@@ -263,7 +263,7 @@ theorem C02_trace (cr : SigCrypto) (base : Ctx) (p : Spec.Prims) (hp : PrimsMatc
     (htap : sv = .TAPSCRIPT → ed.weightInit = true ∧ TapReady cr tx nIn txdata annex leaf ed)
     (hpk : ∀ key, (pm.map (·.2)).contains key = pretend.any (fun q => q.2 == key))
     (hpp : ∀ sig key, (pm.map (·.2)).contains key = true →
-      (pretendLookup pm sig == some key) = pretend.contains (sig, key)) :
+      pretendHas pm sig key = pretend.contains (sig, key)) :
     RelRun (runOps (txCheckerWith cr base tx nIn amount txdata) tc script.length e0)
       (Spec.evalInstrs (txCfg p tx nIn amount txdata.spentOutputs annex leaf flags sv z pretend)
         (Spec.decodePrefix script.length script).1 0 (C01.initSt stack script ed))
